@@ -45,6 +45,7 @@ fn main() {
         "c15-run" => c15::run(&arg(&args, "--progs").expect("--progs"), arg(&args, "--allcuts").is_some(), &out),
         "c16-run" => c16::run(&arg(&args, "--progs").expect("--progs"), seed, argn(&args, "--scheds", 6) as usize, &out),
         "c19-run" => c19::run(&arg(&args, "--sources").expect("--sources"), &out),
+        "c17-transient" => c17::run_transient(&arg(&args, "--progs").expect("--progs"), &out),
         "c17-run" => c17::run(&arg(&args, "--progs").expect("--progs"), argn(&args, "--depth", 2) as usize, &out),
         "lib-dump" => dump::run(&arg(&args, "--file").expect("--file"), &out),
         "e57-read" => prog::read_cases(&arg(&args, "--cases").expect("--cases"), argn(&args, "--from", 0) as usize, argn(&args, "--queue-policies", 2) as usize, &out),
